@@ -1,7 +1,7 @@
 (* Proofs/C17.v — obligations over the facts regenerated from the source, and the
    bridge from those facts to the lockset theorem. *)
 From Coq Require Import List Bool String PeanoNat.
-From Cedar Require Import Model.Lockset Model.LocksetFacts Proofs.C17Lockset gen.FactsC17.
+From Cedar Require Import Model.Lockset Model.LocksetFacts Proofs.C17Lockset Proofs.C17Counter gen.FactsC17.
 Import ListNotations.
 Local Open Scope string_scope.
 Local Open Scope list_scope.
@@ -24,6 +24,41 @@ Proof. vm_compute. auto. Qed.
 
 Lemma vars_safe : forallb var_ok var_facts = true /\ var_facts <> [].
 Proof. split; [vm_compute; reflexivity|discriminate]. Qed.
+
+(* the session counter: the function that hands out counter values is atomic adds only *)
+Definition session_counter_ops : list cop :=
+  match find (fun c => String.eqb (cp_fn c) "security.GetNextSessionCounter" && String.eqb (cp_var c) "sessionCounter") counter_progs with
+  | Some c => cp_ops c
+  | None => [COther]
+  end.
+
+Lemma counter_atomic :
+  forallb counter_prog_ok counter_progs = true /\
+  forallb is_add session_counter_ops = true /\ session_counter_ops <> [].
+Proof. split; [vm_compute; reflexivity|split; [vm_compute; reflexivity|vm_compute; discriminate]]. Qed.
+
+(* any number of goroutines, each calling the translated GetNextSessionCounter any
+   number of times, in any interleaving: all values handed out are pairwise distinct *)
+Fixpoint calls (n : nat) : list cop :=
+  match n with 0 => [] | S k => session_counter_ops ++ calls k end.
+
+Lemma calls_add n : forallb is_add (calls n) = true.
+Proof.
+  induction n as [|n IH]; [reflexivity|]. cbn [calls]. rewrite forallb_app, IH.
+  destruct counter_atomic as (_ & H & _). rewrite H. reflexivity.
+Qed.
+
+Theorem session_counters_distinct (c0 : nat) (ncalls : list nat) s :
+  creach (cinit c0 (map calls ncalls)) s -> NoDup (c_out s).
+Proof.
+  apply counter_distinct. apply Forall_forall. intros t Ht.
+  apply in_map_iff in Ht. destruct Ht as (n & <- & _). apply calls_add.
+Qed.
+
+(* no function mutates, in place, a slice owned by a SecurityConfig: per-connection
+   configs are shallow copies and share those backing arrays *)
+Lemma config_slices_immutable : slice_muts = [].
+Proof. reflexivity. Qed.
 
 (* every call site of security.NewAuthenticator in the library passes a
    per-connection copy; the client, server and SecurityManager sites are
